@@ -25,4 +25,5 @@ def run(ctx: Ctx) -> None:
     ctx.run(resolve.check_resolve)
     ctx.run(resolve.check_cache_keys)
     ctx.run(resolve.check_cached_values_not_mutated)
+    ctx.run(resolve.check_walk_is_per_directory)
     ctx.assume("pathlib / os.walk semantics; pathspec matches gitignore-syntax patterns correctly")
